@@ -942,7 +942,19 @@ func (e *tlsEnvT) handle(n *tlsNode, c net.Conn) {
 	n.mu.Lock()
 	cert, scr := n.cert, n.scr
 	n.mu.Unlock()
-	tc := tls.Server(c, &tls.Config{MinVersion: tls.VersionTLS12, SessionTicketsDisabled: true,
+	// a client that does not speak TLS at all is served in the clear, so that what it would disclose is observed
+	c.SetDeadline(time.Now().Add(driverTimeout))
+	br := bufio.NewReader(c)
+	if b, err := br.Peek(1); err != nil {
+		emit("T", "fail")
+		return
+	} else if b[0] != 0x16 {
+		emit("T", "plain")
+		c.SetDeadline(time.Time{})
+		servePeer(peekedConn{c, br}, scr)
+		return
+	}
+	tc := tls.Server(peekedConn{c, br}, &tls.Config{MinVersion: tls.VersionTLS12, SessionTicketsDisabled: true,
 		GetCertificate: func(h *tls.ClientHelloInfo) (*tls.Certificate, error) {
 			emit("I", vh.Hex([]byte(h.ServerName)))
 			return cert, nil
@@ -957,6 +969,13 @@ func (e *tlsEnvT) handle(n *tlsNode, c net.Conn) {
 	servePeer(tc, scr)
 	tc.Close()
 }
+
+type peekedConn struct {
+	net.Conn
+	r io.Reader
+}
+
+func (p peekedConn) Read(b []byte) (int, error) { return p.r.Read(b) }
 
 // countingDialer is the ClusterConfig.Dialer: a plain TCP dial that is announced to the environment first, so that
 // the scenario can wait for the server side of every connection the driver opened.
@@ -1077,6 +1096,9 @@ func formatTLS(op string, r raw) string {
 		proceeded, cred := "0", "0"
 		if len(d.sent) > 0 {
 			proceeded = "1"
+		}
+		if d.tls == "plain" {
+			proceeded = "IN-THE-CLEAR"
 		}
 		for _, s := range d.sent {
 			if strings.HasPrefix(s, "authresp") {
